@@ -375,6 +375,15 @@ func interpCases(c *Ctx, n int, tweak func(cfg *GenCfg, i int), post func(s *Sce
 		case "keyCollision":
 			prog = g.keyCollisionProgram()
 			c.count("directed:keyCollision")
+		case "negVarSend":
+			prog = g.negVarSendProgram()
+			c.count("directed:negVarSend")
+		case "nestedDebt":
+			prog = g.nestedDebtProgram()
+			c.count("directed:nestedDebt")
+		case "sweepDebt":
+			prog = g.sweepDebtProgram()
+			c.count("directed:sweepDebt")
 		case "saveDiff":
 			prog = g.saveDiffProgram()
 			c.count("directed:saveDiff")
@@ -540,8 +549,12 @@ func init() {
 				cfg.SelfLead, cfg.Directed = false, "twoAssets"
 			case 50:
 				cfg.SelfLead, cfg.Directed = false, "zeroTwins"
-			case 26, 34, 58:
+			case 26:
 				cfg.NegCaps = 300
+			case 34:
+				cfg.SelfLead, cfg.Directed = false, "nestedDebt"
+			case 58:
+				cfg.SelfLead, cfg.Directed = false, "sweepDebt"
 			}
 			if i%16 == 11 {
 				cfg.Directed = ""
@@ -571,6 +584,8 @@ func init() {
 			case 5:
 				if i%16 == 5 {
 					cfg.Directed = "mismatchSum"
+				} else {
+					cfg.Directed = "negVarSend"
 				}
 			}
 		}, nil)
